@@ -24,7 +24,7 @@ CHECKS = {
         design_ref="DESIGN.md 6/C01", note=TRUST),
     "C02": dict(
         technique="runtime monitoring: differential oracle - every recorded result of the real code compared byte-for-byte with an independent executable RFC 9180 (both directions)",
-        text="Exploration with an independent reference: all 48 suites x 4 modes, impl-as-sender under scripted RNG bytes and reference-as-sender transcripts, both single-shot forms, argument-aliasing sessions (info = psk_id, randomness that derives a key already in play, enc = pkR, ...), length sweeps 0..2200 of exporter context / info / psk / psk_id / aad, 300-message (thorough 70 000) sessions; on the overflow-checked and the release build and two mixed configurations (thorough: the pairwise covering set of build configurations, also at opt-level 0, 1, s, z and with target-cpu=native, and with info / psk / psk_id / exporter context / ikm strings of 2^32+5 bytes). Any symmetric change to labels, ids, orders, mode bytes or nonce layout shows up as a byte difference. The reference is anchored on published vectors at the start of each run.",
+        text="Exploration with an independent reference: all 48 suites x 4 modes (plus 6 suites over a mock KEM plugged in through the public Kem trait, 96-byte sizes), impl-as-sender under scripted RNG bytes and reference-as-sender transcripts, both single-shot forms, argument-aliasing sessions (info = psk_id, randomness that derives a key already in play, enc = pkR, ...), length sweeps 0..2200 of exporter context / info / psk / psk_id / aad, 300-message (thorough 70 000) sessions; on the overflow-checked and the release build and two mixed configurations (thorough: the pairwise covering set of build configurations, also at opt-level 0, 1, s, z and with target-cpu=native, and with info / psk / psk_id / exporter context / ikm strings of 2^32+5 bytes). Any symmetric change to labels, ids, orders, mode bytes or nonce layout shows up as a byte difference. The reference is anchored on published vectors at the start of each run.",
         design_ref="DESIGN.md 3, 6/C02", note=TRUST),
     "C03": dict(
         technique="runtime monitoring: differential oracle for the KEM layer (DeriveKeyPair/GenerateKeyPair/Encap/Decap/Auth variants) against the reference, with directed rare-event inputs",
@@ -32,7 +32,7 @@ CHECKS = {
         design_ref="DESIGN.md 6/C03", note=TRUST + " With the KEM's own hash the P-384/P-521 retry path is unreachable (p < 2^-190); it is exercised with a KDF other than the KEM's."),
     "C04": dict(
         technique="runtime monitoring: abstract state machine (counter + latch) stepped in lock-step with the real sender context; every ciphertext recomputed with OpenSSL under the model's nonce; sort-based nonce-reuse detector over bursts",
-        text="Exploration of the 2^64 counter space by structure: a full prefix (2^20 quick / 2^24 thorough seals per AEAD) for uniqueness, every byte-carry boundary, the last values before and after exhaustion, seeded random positions, arbitrary call histories on dead contexts; thorough: 64.5 GiB through one context per AEAD and the raw-key workload interpreted by Miri for i686, s390x, aarch64, powerpc (32-bit big-endian) and two target x feature conjunctions, and positions at opt-level 0, 1, s, z and target-cpu=native. Seals that fail (SealError) are driven with mock AEADs implementing the crate's public Aead trait (nonce sizes 8, 12, 13 and 24 bytes, tags of 16, 20 and 32 bytes; they can fail or panic on request) whose tag echoes the nonce: a failed seal must not consume a sequence number or set the latch, also exactly at 2^64-1, and the counter sits in the last 8 bytes of a nonce of any size. Mixed build configurations (no-alloc + panic=abort + opt-level s + native CPU; std + panic=abort + opt-level z) every time, a pairwise covering set of 15 configurations in the thorough tier. Contexts are built from raw key material through a cfg(hpke_verif) hook so the monitor does not depend on the key schedule.",
+        text="Exploration of the 2^64 counter space by structure: a full prefix (2^20 quick / 2^24 thorough seals per AEAD) for uniqueness, every byte-carry boundary, the last values before and after exhaustion, seeded random positions, arbitrary call histories on dead contexts; thorough: 64.5 GiB through one context per AEAD and the raw-key workload interpreted by Miri for i686, s390x, aarch64, powerpc (32-bit big-endian) and two target x feature conjunctions, and positions at opt-level 0, 1, s, z and target-cpu=native. Seals that fail (SealError) are driven with mock AEADs implementing the crate's public Aead trait (nonce sizes 8, 12, 13 and 24 bytes, tags of 16, 20 and 32 bytes, keys of 32 and 64 bytes, one with tag-first attached forms; they can fail or panic on request) whose tag echoes the nonce: a failed seal must not consume a sequence number or set the latch, also exactly at 2^64-1, and the counter sits in the last 8 bytes of a nonce of any size. Mixed build configurations (no-alloc + panic=abort + opt-level s + native CPU; std + panic=abort + opt-level z) and a build whose compiler fails every build-script feature probe every time, a pairwise covering set of 15 configurations in the thorough tier. Contexts are built from raw key material through a cfg(hpke_verif) hook so the monitor does not depend on the key schedule.",
         design_ref="DESIGN.md 6/C04", note=TRUST + " Positions beyond the burst prefix are reached with the set_seq hook."),
     "C05": dict(
         technique="runtime monitoring: offline checker of recorded delivery histories against an abstract receiver model (position + latch); acceptance decided from recorded bytes only",
